@@ -60,6 +60,9 @@ theorem sendable_set : sendable Gen.cmdSet = true := by decide
 theorem safe_setNode (id : Int) (n : Node) : Safe SbufOK (setNode id n) :=
   Safe.modifySt _ fun _ hs => hs
 
+theorem safe_allocNode : Safe SbufOK allocNode :=
+  Safe.modifySt _ fun _ hs => hs
+
 theorem safe_requireNode (id : Int) : Safe SbufOK (requireNode id) := by
   unfold requireNode
   refine Safe.bind_getSt fun st _ => ?_
@@ -70,7 +73,7 @@ theorem safe_requireNode (id : Int) : Safe SbufOK (requireNode id) := by
 /-- Syntax-directed proof search for `Safe SbufOK`. -/
 macro "safe_auto" : tactic => `(tactic| repeat' (first
   | exact Safe.pure _ | exact Safe.raiseLib _ | exact Safe.transportWrite _ | exact Safe.getSt
-  | exact safe_setNode _ _ | exact safe_requireNode _
+  | exact safe_setNode _ _ | exact safe_requireNode _ | exact safe_allocNode
   | exact safe_gwSend _ _ (by first | assumption | exact sendable_internal | exact sendable_set)
   | exact Safe.modifySt _ (fun _ hs => hs)
   | refine Safe.seq ?_ ?_ | refine Safe.bind ?_ (fun _ => ?_)
